@@ -312,7 +312,7 @@ def run(tier, seed):
     nsh = 16
     jobs = [{"module": "props.c17", "func": "shard_grid", "kwargs": {"tier": tier, "shard": i, "nshards": nsh}}
             for i in range(nsh)]
-    nh = 2000 if tier == "quick" else 40000
+    nh = 2000 if tier == "quick" else 400000
     jobs += [{"module": "props.c17", "func": "shard_hyp",
               "kwargs": {"seed": common.derive_seed(seed, ID, "hyp", i), "n": nh // 8}} for i in range(8)]
     acc, not_run = run_jobs(jobs, tag="c17")
